@@ -5,7 +5,7 @@ from common import Report, log
 
 MANIFEST = dict(
     technique='Coq proof over a byte-level Gallina mirror of the tokenizer (Model/Lexer.v) + lexical tables regenerated from the source each run + byte-for-byte differential correspondence of the Go tokenizer against the OCaml extraction of the model (sample re-evaluated in Coq by vm_compute) + implementation-side reference lexer and layout-independence oracles',
-    text='The tokenizer (whitespace/comment skipping, dispatch, identifiers and keywords with compound look-ahead, numbers, the four quoted readers with doubled quotes and escapes, triple quotes, dollar quoting, placeholders, every operator ladder, both limits, every error site with its location) is mirrored branch by branch in Gallina over bytes with explicit Panic/OutOfFuel outcomes. Proved for every byte string: tokenizing never panics and never runs out of fuel (progress lemma per dispatch branch); a successful run ends with exactly one end marker, contains no other, has ordered non-empty disjoint token spans and at most MaxTokens tokens; input above the size limit is rejected with E1006 and at or below it the limit plays no role; comments are captured in source order, each with exactly the bytes it spans. Against the reference lexical grammar: the munch lemma of the operator/punctuation class (partial faithful-reading theorem) and quoted identifiers kept distinct from keywords. NOT proved in this revision: the faithful-reading theorem for words, numbers, strings, quoted identifiers and dollar quoting, and its corollaries layout independence and keyword-case independence; these are decided by the byte-for-byte correspondence and the implementation-side oracles (reference lexer written from the grammar, re-layout/re-case oracle on kinds, values and the parse). The keyword maps, rune classes, token type numbers, limits and error codes are regenerated from the tree on every run; the model is compared with the real tokenizer on every operator pair x separator class, generated lexeme streams, byte soup, invalid UTF-8 and the repository corpus (kind, value, quote, spans, comments, error code and location).',
+    text='The tokenizer (whitespace/comment skipping, dispatch, identifiers and keywords with compound look-ahead, numbers, the four quoted readers with doubled quotes and escapes, triple quotes, dollar quoting, placeholders, every operator ladder, both limits, every error site with its location) is mirrored branch by branch in Gallina over bytes with explicit Panic/OutOfFuel outcomes. Proved for every byte string: tokenizing never panics and never runs out of fuel (progress lemma per dispatch branch); a successful run ends with exactly one end marker, contains no other, has ordered non-empty disjoint token spans and at most MaxTokens tokens; input above the size limit is rejected with E1006 at 1:1 and at or below it the limit plays no role; comments are captured in source order, each with exactly the bytes it spans. Against the reference lexical grammar: the munch lemma of the operator/punctuation class (partial faithful-reading theorem) and quoted identifiers kept distinct from keywords. NOT proved in this revision: the faithful-reading theorem for words, numbers, strings, quoted identifiers and dollar quoting, and its corollaries layout independence and keyword-case independence; these are decided by the byte-for-byte correspondence and the implementation-side oracles (reference lexer written from the grammar, re-layout/re-case oracle on kinds, values and the parse). The keyword maps, rune classes, token type numbers, limits and error codes are regenerated from the tree on every run; the model is compared with the real tokenizer on every operator pair x separator class, generated lexeme streams, byte soup, invalid UTF-8 and the repository corpus (kind, value, quote, spans, comments, error code and location).',
     note=common.BASE_NOTE + "C04: the theorems are about Model/Lexer.v; its tie to tokenizer.go is the differential correspondence (extracted OCaml, ExtrOcamlBasic only, cross-checked in Coq on a sample) plus the regenerated tables. strings.ToUpper is modelled only as far as a lookup in the ASCII-keyed keyword maps can observe it (table of non-ASCII runes with ASCII upper-case image is regenerated). Compound keywords are judged after splitting (raw GROUP BY is one token).",
     design="6/C04")
 
@@ -457,6 +457,25 @@ def run(tier):
     rp.obligation("correspondence: Go tokenizer = extracted Model/Lexer.v on %d inputs" % len(inputs), model is not None and not mism,
                   "%d mismatches" % len(mism))
 
+    # ---- size limit on the implementation: one byte above MaxInputSize is rejected exactly as the model (with small limits) says,
+    # exactly MaxInputSize bytes are not rejected for size
+    try:
+        mi = tabs["max_input"]
+        big = run_impl([b" " * (mi + 1), b"\n" * mi], parse=False)
+        small = run_model(binp, [b"      "], limits=(5, 10))[0] if binp else None
+        ok_over = big[0].get("c") == small if small is not None else decode_canon(big[0].get("c") or []).get("code") == tb.codes["InputTooLarge"]
+        d_at = decode_canon(big[1].get("c") or [])
+        ok_at = d_at.get("kind") == "ok" and len(d_at["toks"]) == 1
+        rp.obligation("size limit boundary on the implementation (MaxInputSize+1 rejected as modelled, MaxInputSize accepted)", ok_over and ok_at,
+                      "over: %s model: %s at: %s" % (big[0].get("c"), small, str(d_at)[:100]))
+        if not (ok_over and ok_at):
+            rp.violation({"kind": "oracle", "oracle": "size_limit", "bytes": mi + (0 if ok_over else 1), "impl_over": big[0].get("c"), "model_over": small,
+                          "impl_at_limit": str(d_at)[:300],
+                          "explanation": "input one byte above MaxInputSize must be rejected with E1006 at the modelled location; input of exactly MaxInputSize bytes must not be rejected for size"},
+                         "size_limit_boundary")
+    except common.StageError as e:
+        return common.stage_fail(rp, e)
+
     # ---- extraction cross-check: a stratified sample re-evaluated inside Coq by vm_compute
     if binp and ok_inst:
         idxs = list(range(len(SPECIAL) + len(BYTE_SPECIAL)))
@@ -537,6 +556,12 @@ def replay(path):
         fails = witness_check(d["witness"], tb)
         print("\n".join(fails))
         return 1 if fails else 0
+    if d.get("oracle") == "size_limit":
+        mi = tabs["max_input"]
+        big = run_impl([b" " * (mi + 1), b"\n" * mi])
+        bad = decode_canon(big[0]["c"]).get("code") != tb.codes["InputTooLarge"] or big[0]["c"][2:] != [1, 1] or decode_canon(big[1]["c"]).get("kind") != "ok"
+        print(big[0]["c"], str(decode_canon(big[1]["c"]))[:200])
+        return 1 if bad else 0
     if "input_hex" not in d:
         return 2
     b = bytes.fromhex(d["input_hex"])
